@@ -681,6 +681,16 @@ func runC20(c *mon.Ctx) {
 			if r.IntN(3) == 0 {
 				text = nil
 			}
+			if text != nil && n > 4 && r.IntN(3) == 0 {
+				// several glyphs with the same text, whose derived name is
+				// valid but close to the 31 characters a glyph name may have:
+				// a suffix that tells the glyphs apart no longer fits
+				long := []string{"\u4e00\u4e01\u4e02\u4e03\u4e04", "\U0001F600\U0001F601\U0001F602\U0001F603", "\u4e00\u4e01\u4e02\u4e03\U0001F600"}[r.IntN(3)]
+				for j := 2 + r.IntN(3); j > 0; j-- {
+					text[glyph.ID(1+r.IntN(n-1))] = long
+				}
+				k.Class("makesimple:long-text-shared-by-several-glyphs")
+			}
 			// some pre-existing names, valid and invalid
 			pre := make([]string, n)
 			for i := 1; i < n; i++ {
@@ -857,7 +867,7 @@ func runC20(c *mon.Ctx) {
 		}
 		k.Distinct("nff", k.Index)
 	})
-	c.Require("names-from-files:post-version-1", "names-from-files:post-version-2", "names-from-files:post-version-3", "names-from-files:>=258-glyphs")
+	c.Require("makesimple:long-text-shared-by-several-glyphs", "names-from-files:post-version-1", "names-from-files:post-version-2", "names-from-files:post-version-3", "names-from-files:>=258-glyphs")
 
 	// PostScript names
 	delims := []string{"(", ")", "<", ">", "[", "]", "{", "}", "/", "%", " ", "\t", "\n", "\x00", "\x7f"}
